@@ -35,6 +35,9 @@ var families = map[string]genFn{
 	"multidb": genMultiDB,
 	"cancel": genCancel,
 	"limit": genLimit,
+	"close": genClose,
+	"events": genEvents,
+	"concurrent": genConcurrent,
 	"address": genAddress,
 	"snapshot": genSnapshot,
 }
